@@ -106,6 +106,7 @@ def make_case(cid, rng, mix):
     g.single = rng.random() < mix.get('single', 0.5)
     g.multi = rng.random() < mix.get('multi', 0.35)
     g.blockfirst = rng.random() < mix.get('blockfirst', 0.25)
+    g.loops = rng.random() < mix.get('loops', 0.2)
     body, nsites, nreads = prog.number(g.program())
     locals_ = sorted(prog.bound_names(body))
     pre = []
